@@ -51,7 +51,9 @@ MutsAt(c, k, N) ==
              ELSE LET all == InsertMuts(b)
                       use == SelectSeq(all, LAMBDA m : k = Len(Flights[c].msgs) \/ m.sp[1].off = 0)
                   IN [i \in DOMAIN use |-> [n |-> 1, m |-> use[i]]]
-  IN Flat(per) \o ins
+      ver == IF Flights[c].side = "rec" /\ Enabled("versions")
+             THEN LET vs == VersionMuts(b, N) IN [i \in DOMAIN vs |-> [n |-> 1, m |-> vs[i]]] ELSE <<>>
+  IN Flat(per) \o ins \o ver
 
 \* bytes that carry structure (length fields, type codes): the layout of a message
 SkelOf(b, N, case, k) ==
